@@ -61,6 +61,17 @@ impl Fault {
 /// durable image. Installed by checks that want the copy-on-write assertion.
 pub type ProtectFn = Arc<dyn Fn(&[u8]) -> Option<Vec<(u64, u64)>> + Send + Sync>;
 
+/// What a sync hook reports about the durable image at a completed sync_data
+#[derive(Default)]
+pub struct SyncVerdict {
+    pub protected: Option<Vec<(u64, u64)>>,
+    /// the durable image is not a well-formed committed forest (C10)
+    pub error: Option<String>,
+    /// observations: keys starting with "max." keep the maximum, others are summed
+    pub obs: Vec<(String, u64)>,
+}
+pub type SyncHook = Arc<dyn Fn(&[u8]) -> SyncVerdict + Send + Sync>;
+
 #[derive(Default)]
 pub struct Counts {
     pub len: u64,
@@ -100,6 +111,9 @@ pub struct State {
     /// deliberately corrupted images, see DESIGN C20/C12 boundary)
     pub judge_bounds: bool,
     pub name: String,
+    pub sync_hook: Option<SyncHook>,
+    pub sync_errors: Vec<String>,
+    pub sync_obs: std::collections::BTreeMap<String, u64>,
 }
 
 pub struct Inner {
@@ -153,6 +167,9 @@ impl MonBackend {
                     protect_failed_decodes: 0,
                     judge_bounds: true,
                     name: String::new(),
+                    sync_hook: None,
+                    sync_errors: Vec::new(),
+                    sync_obs: std::collections::BTreeMap::new(),
                 }),
             }),
         }
@@ -197,6 +214,14 @@ impl MonBackend {
     pub fn set_protect(&self, f: ProtectFn) {
         let mut st = self.lock();
         st.protect = Some(f);
+    }
+
+    pub fn set_sync_hook(&self, h: SyncHook) {
+        self.lock().sync_hook = Some(h);
+    }
+
+    pub fn take_sync_errors(&self) -> Vec<String> {
+        std::mem::take(&mut self.lock().sync_errors)
     }
 
     pub fn take_violations(&self) -> Vec<String> {
@@ -309,7 +334,36 @@ impl StorageBackend for MonBackend {
         if st.record {
             st.log.push(Ev::Sync);
         }
-        if let Some(p) = st.protect.clone() {
+        if let Some(h) = st.sync_hook.clone() {
+            st.protect_evals += 1;
+            let v = h(&st.data);
+            if let Some(e) = v.error {
+                if st.sync_errors.len() < 8 {
+                    let n = st.counts.sync;
+                    st.sync_errors.push(format!("durable image after sync #{n}: {e}"));
+                }
+            }
+            for (k, val) in v.obs {
+                let e = st.sync_obs.entry(k.clone()).or_insert(0);
+                if k.starts_with("max.") {
+                    *e = (*e).max(val);
+                } else {
+                    *e += val;
+                }
+            }
+            match v.protected {
+                Some(mut ranges) => {
+                    ranges.sort_unstable();
+                    st.protected_max = ranges.iter().map(|r| r.1).max().unwrap_or(0);
+                    st.protected = ranges;
+                }
+                None => {
+                    st.protect_failed_decodes += 1;
+                    st.protected.clear();
+                    st.protected_max = 0;
+                }
+            }
+        } else if let Some(p) = st.protect.clone() {
             st.protect_evals += 1;
             match p(&st.data) {
                 Some(mut ranges) => {
